@@ -235,6 +235,25 @@ pub fn run(args: &Args) -> i32 {
         let tracks = check_clustering(pts, what.clone(), loc);
         check_vertex_partition(tracks, what, loc);
     });
+    // two spots of 8 identical hits each, separated by 2.5 .. 6 cm along the azimuth / radius / z (a cluster may hold
+    // both only if they are within 3 cm of each other)
+    let seps = [0.025, 0.029, 0.0299, 0.0301, 0.031, 0.033, 0.036, 0.04, 0.042, 0.0425, 0.045, 0.05, 0.06];
+    rep.run("two-spots", seps.len() as u64 * 3 * 3 * 2, 300, true, "two spots of 8 (and 7 + 9) identical hits at r in {0.11, 0.15, 0.18} separated by {2.5 .. 6 cm} (13 values) along {azimuth (chord), radius, z}", |idx, loc| {
+        let d = unrank(idx, &[seps.len() as u64, 3, 3, 2]);
+        let sep = seps[d[0] as usize];
+        let r = [0.11, 0.15, 0.18][d[1] as usize];
+        let (na, nb) = if d[3] == 0 { (8, 8) } else { (7, 9) };
+        let a = sp(r, 1.1, 0.2);
+        let b = match d[2] {
+            0 => sp(r, 1.1 + 2.0 * (sep / (2.0 * r)).asin(), 0.2),
+            1 => sp(if r + sep <= 0.19 { r + sep } else { r - sep }, 1.1, 0.2),
+            _ => sp(r, 1.1, 0.2 + sep),
+        };
+        let mut pts = vec![a; na];
+        pts.extend(vec![b; nb]);
+        let dir = ["azimuth", "radius", "z"][d[2] as usize];
+        check_clustering(pts, json!({"family": "two-spots", "separation_m": sep, "direction": dir, "r": r, "hits": [na, nb]}), loc);
+    });
     // one point repeated up to and beyond the limits of narrow counters (u8, u16) inside a track and alone
     let reps: Vec<usize> = if thorough { vec![31, 100, 254, 255, 256, 257, 300, 1000, 65535, 65536, 65537] } else { vec![31, 100, 254, 255, 256, 257, 300, 1000] };
     rep.run("massive-duplicates", reps.len() as u64 * 2, 600, true, "one space point repeated {31, 100, 254..257, 300, 1000; thorough: 65535..65537} times x {inside a 20-point track, on its own}", |k, loc| {
